@@ -26,7 +26,9 @@ SoftDescs == Flatten2([i \in DOMAIN GridSeq |->
 ReuseActs == <<"relu", "leakyrelu", "sigmoid", "tanhact", "softmax">>
 ReuseShapes == <<<<<<2, 3>>, <<3, 2>>>>, <<<<2, 2>>, <<2, 2, 3>>>>, <<<<4>>, <<1, 4>>>>, <<<<2, 1, 2>>, <<2, 3, 2>>>>>>
 ReuseDescs == Flatten2([a \in DOMAIN ReuseActs |-> [r \in DOMAIN ReuseShapes |-> <<"reuse", ReuseActs[a], ReuseShapes[r][1], ReuseShapes[r][2]>>]])
-Descs == MyCases(ElemDescs \o SoftDescs \o ReuseDescs)
+(* ... and with a call the object REJECTS (rank too low for its dimension) between the accepted ones *)
+RejDescs == << <<"reuse-rej", <<2, 3>>, <<3>>, <<3, 2>>>>, <<"reuse-rej", <<2, 2, 2>>, <<2>>, <<1, 4>>>> >>
+Descs == MyCases(ElemDescs \o SoftDescs \o ReuseDescs \o RejDescs)
 
 D == "big,any,zero"
 Build(d) ==
@@ -44,6 +46,12 @@ Build(d) ==
                       [] OTHER -> [inst |-> 1, dim |-> 0]
          IN MkCase("c14", d[2] \o "-reused", <<In("x", d[3], FALSE), In("y", d[4], FALSE)>>, <<D, D>>,
                    <<Ins(d[2], par, <<1>>), Ins(d[2], par, <<2>>), Ins(d[2], par, <<1>>), Ins(d[2], par, <<4>>)>>, <<3, 4, 5, 6>>, 0, TRUE)
+    [] d[1] = "reuse-rej" ->
+         LET par == [dim |-> 1, nilconf |-> FALSE, inst |-> 1]
+             ins == <<In("x", d[2], FALSE), In("z", d[3], FALSE), In("y", d[4], FALSE)>>
+             code == <<Ins("softmax", par, <<1>>), Ins("softmax", par, <<3>>), Ins("softmax", par, <<1>>)>>
+         IN MkCase("c14", "softmax-reused-rejecting", ins, <<D, D, D>>, code, <<4, 5, 6>>, 0, TRUE)
+            @@ [rejects |-> <<Rejected(ins, code, 2, Ins("softmax", par, <<2>>)), Rejected(ins, code, 3, Ins("softmax", par, <<2>>))>>]
     [] d[1] = "softmax-bad" ->
          MkCase("c14", d[1], <<In("x", d[2], FALSE)>>, <<"any">>, <<Ins("softmax", [dim |-> d[3], nilconf |-> FALSE], <<1>>)>>, <<>>, 0, TRUE)
 
